@@ -238,6 +238,96 @@ def r14_2(ctx, rc):
     c02.r2_9(ctx, rc)
 
 
+def release_records_every_dropped_dir(ctx, rc, Rl, counts, gattr):
+    """In the release walk, a directory whose creation record is dropped
+    (``<created map>.pop(dir)`` gave an entry) is put into the error-created
+    set - the only thing commit and rollback remove it by - and into the
+    maybe-removed set before the walk moves on; no further condition."""
+    prog = ctx.prog
+    sg = ctx.E.super(Rl, lambda g: isinstance(g, Func) and g.cls == Rl.cls
+                     and not g.is_public and not g.is_ctor_call)
+
+    def dropped_edge(lab):
+        if not (isinstance(lab, tuple) and len(lab) == 4 and
+                lab[0] in ('T', 'F')):
+            return False
+        a = ctx.H.subst(lab[1], lab[2], lab[3])
+        neg = False
+        if isinstance(a, ast.Compare) and len(a.ops) == 1 and isinstance(
+                a.comparators[0], ast.Constant) and \
+                a.comparators[0].value is None and isinstance(
+                    a.ops[0], (ast.Is, ast.IsNot)):
+            neg = isinstance(a.ops[0], ast.Is)
+            a = a.left
+        if not (isinstance(a, ast.Call) and isinstance(
+                a.func, ast.Attribute) and a.func.attr == 'pop' and
+                isinstance(a.func.value, ast.Attribute) and
+                a.func.value.attr != counts):
+            return False
+        return (lab[0] == 'T') != neg
+    starts = [d for x in sg.nodes for d, lab in x.succ if dropped_edge(lab)]
+    # ``if d in created: del created[d]`` - a pop without default as a whole
+    # statement only completes when the entry existed
+    for x in sg.nodes:
+        if x.kind == 'ret' and x.call is not None and isinstance(
+                x.call.func, ast.Attribute) and x.call.func.attr == 'pop' \
+                and isinstance(x.call.func.value, ast.Attribute) and \
+                x.call.func.value.attr != counts and \
+                len(x.call.args) == 1 and not x.call.keywords and \
+                isinstance(ctx.prog.parent(x.call), ast.Expr):
+            starts.append(x.id)
+    key0 = '%s drops creation records by a tested pop' % Rl.qualname
+    if not starts:
+        raise AnalysisError('no tested drop of a creation record in ' +
+                            Rl.qualname)
+    loops = [n for n in ast.walk(Rl.node) if isinstance(n, (ast.While,
+                                                            ast.For))]
+    heads = {id(l.test) if isinstance(l, ast.While) else id(l)
+             for l in loops}
+
+    def leaves_iteration(x):
+        if x.id in sg.normal_exits():
+            return True
+        return x.kind == 'in' and x.func is Rl and x.cn is not None and \
+            x.cn.kind in ('cond', 'for_next') and x.cn.ast is not None and (
+                id(x.cn.ast) in heads or any(
+                    x.cn.ast is sub for l in loops
+                    if isinstance(l, ast.While)
+                    for sub in ast.walk(l.test)))
+    sets = sorted({c.func.value.attr for f0 in {x.func for x in sg.nodes
+                                                if x.func is not None}
+                   for c in prog.calls_in(f0)
+                   if isinstance(c.func, ast.Attribute) and
+                   c.func.attr == 'add' and isinstance(
+                       c.func.value, ast.Attribute)})
+    if gattr not in sets:
+        sets.append(gattr)
+    for sname in sets:
+        def adds(x, sname=sname):
+            return x.kind == 'ret' and x.call is not None and isinstance(
+                x.call.func, ast.Attribute) and x.call.func.attr in (
+                    'add', 'update') and isinstance(
+                        x.call.func.value, ast.Attribute) and \
+                x.call.func.value.attr == sname
+        key = 'a dropped creation record is followed by .%s.add' % sname
+        w = Q.first_unguarded(sg, starts, adds, leaves_iteration,
+                              edge_ok=Q.normal_edge)
+        if w:
+            rc.violation(
+                'release-unrecorded | %s | %s' % (Rl.qualname, sname),
+                'after %s dropped the creation record of a directory, a path '
+                'moves on without adding the directory to .%s: %s' % (
+                    Rl.qualname, sname,
+                    'it stays on disk after commit and rollback (nothing '
+                    'else removes it) and is no longer recorded as created'
+                    if sname == gattr else
+                    'the view is not told that it may be gone'),
+                sg.nodes[w[0]].where(), sg.describe_path(w), key=key)
+        else:
+            rc.ok({'after': 'pop of the creation record', 'adds': sname},
+                  key=key)
+
+
 def r14_3(ctx, rc):
     R = ctx.R
     prog = ctx.prog
@@ -396,6 +486,7 @@ def r14_3(ctx, rc):
         return out
     rel_sets = added_sets(Rl)
     ho_sets = added_sets(H)
+    release_records_every_dropped_dir(ctx, rc, Rl, counts, gattr)
     key = '%s records a directory in the same sets as %s' % (
         handoff, RELEASE)
     if set(rel_sets) - set(ho_sets):
@@ -611,6 +702,14 @@ def r14_8(ctx, rc):
     r10_2(ctx, rc)
 
 
+def r14_9(ctx, rc):
+    """What a failed set-up leaves on disk must not change the answer for a
+    directory already confirmed removed: the memo is asked before the scan,
+    and a "removed" verdict is memoised (R4.10)."""
+    from .c04 import r4_10
+    r4_10(ctx, rc)
+
+
 RULES = [
     ('R14.1', 'reserve/release typestate on every exit', r14_1),
     ('R14.2', 'cache write: in rollback scope, backed up, compensated',
@@ -622,4 +721,6 @@ RULES = [
     ('R14.7', 'release walk is the inverse of the reserve walk (R4.8)',
      r14_7),
     ('R14.8', 'the build_file failure handler is complete (R10.2)', r14_8),
+    ('R14.9', 'removed-directory memo is asked first and kept (R4.10)',
+     r14_9),
 ]
